@@ -116,7 +116,18 @@ async fn case(run: usize, gen: &mut Gen, out: &mut Out) {
     }
     let watch = gen.rng.gen_bool(0.7);
     if watch {
-        step!("A", a, (json!({"op": "WATCH", "ks": ["w"]}), vec![b("WATCH"), b("w")]));
+        // one or several watched keys, in one WATCH or in two; B writes w, x and q
+        let sets: [&[&str]; 7] = [&["w"], &["w"], &["w", "x"], &["x", "w"], &["q", "w"], &["w", "q", "x"], &["x"]];
+        let ks = sets[gen.rng.gen_range(0..sets.len())];
+        if ks.len() >= 2 && gen.rng.gen_bool(0.3) {
+            for k in ks {
+                step!("A", a, (json!({"op": "WATCH", "ks": [k]}), vec![b("WATCH"), b(k)]));
+            }
+        } else {
+            let mut argv = vec![b("WATCH")];
+            argv.extend(ks.iter().map(|k| b(k)));
+            step!("A", a, (json!({"op": "WATCH", "ks": ks}), argv));
+        }
         if gen.rng.gen_range(0..10) == 0 {
             step!("A", a, ctl("UNWATCH"));
         }
